@@ -458,6 +458,12 @@ def _get_Hamiltonian_from_couplings(model, sparse: bool, undo_sort_charge: bool)
     ct.remove_zeros()
     edt = model.exp_decaying_terms
     term_list = ot.to_TermList() + ct.to_TermList() + edt.to_TermList(cutoff=0.0)
+    # `to_TermList` drops the operator strings (e.g. Jordan-Wigner strings) between the sites,
+    # so we need to re-insert them explicitly.
+    op_strings = _get_op_strings(ct) + _get_op_strings_exp_decaying(edt, cutoff=0.0)
+    assert len(op_strings) == len(term_list.terms) - sum(len(t) for t in ot.onsite_terms)
+    op_strings = [[]] * (len(term_list.terms) - len(op_strings)) + op_strings
+    terms = [sorted(list(term) + op_str, key=lambda t: t[1]) for term, op_str in zip(term_list.terms, op_strings)]
 
     sites = model.lat.mps_sites()
     dims = [s.leg.ind_len for s in sites]
@@ -472,7 +478,7 @@ def _get_Hamiltonian_from_couplings(model, sparse: bool, undo_sort_charge: bool)
         kron = np.kron
         eye_0 = np.eye(1)  # identity on zero sites. starting point for doing kron.
 
-    for s, terms in zip(term_list.strength, term_list.terms):
+    for s, terms in zip(term_list.strength, terms):
         last_site = -1
         t = eye_0
         for op, i in terms:
@@ -489,4 +495,53 @@ def _get_Hamiltonian_from_couplings(model, sparse: bool, undo_sort_charge: bool)
         if len(sites_since_last_op) > 0:
             t = kron(t, np.eye(np.prod([dims[n] for n in sites_since_last_op])))
         H = H + s * t
+    if model.explicit_plus_hc:
+        H = H + H.conj().T
     return H
+
+
+def _get_op_strings(ct):
+    """For each term of ``ct.to_TermList()``, get a list of the ``(op_string, k)`` on sites in between."""
+    res = []
+    if hasattr(ct, 'connections'):  # MultiCouplingTerms
+        term_list_left = ct._fill_term_list(ct.terms_left, ct._connect_left)
+        term_list_right = ct._fill_term_list(ct.terms_right, ct._connect_right)
+        for tL, tR, c in zip(term_list_left, term_list_right, ct.connections):
+            if c is None:
+                continue
+            switchLR, op_switch, shift, _ = c
+            op_str = []
+            acts_on_switchLR = True
+            for n, (i, _, op) in enumerate(tL):
+                j = tL[n + 1][0] if n + 1 < len(tL) else switchLR
+                op_str.extend([(op, k) for k in range(i + 1, j)])
+                acts_on_switchLR = op_switch != op
+            if not acts_on_switchLR:
+                op_str.append((op_switch, switchLR))
+            for n, (j, _, op) in enumerate(tR):
+                i = tR[n + 1][0] if n + 1 < len(tR) else switchLR - shift
+                op_str.extend([(op, k + shift) for k in range(i + 1, j)])
+            res.append([(op, k) for op, k in op_str if op != 'Id'])
+        return res
+    d0 = ct.coupling_terms
+    for i in sorted(d0):
+        d1 = d0[i]
+        for opname_i, op_str in sorted(d1):
+            d2 = d1[(opname_i, op_str)]
+            for j in sorted(d2):
+                for opname_j in sorted(d2[j]):
+                    res.append([(op_str, k) for k in range(i + 1, j) if op_str != 'Id'])
+    return res
+
+
+def _get_op_strings_exp_decaying(edt, cutoff):
+    """Same as :func:`_get_op_strings`, but for the ``edt.to_TermList(cutoff, 'finite')``."""
+    res = []
+    for name in ['exp_decaying_terms', 'centered_terms']:
+        for term in getattr(edt, name):
+            single = edt.__class__(edt.L)
+            setattr(single, name, [term])
+            op_str = term[6]
+            for (_, i), (_, j) in single.to_TermList(cutoff, 'finite').terms:
+                res.append([(op_str, k) for k in range(min(i, j) + 1, max(i, j)) if op_str != 'Id'])
+    return res
